@@ -166,6 +166,14 @@ func (vc *VC) evalIdent(name string, env *SpecEnv) SV {
 			if c, ok := obj.(*types.Const); ok {
 				return vc.constSV(c.Val(), c.Type())
 			}
+			if _, ok := obj.(*types.Var); ok {
+				if sp := vc.eng.prog.Package(env.pkg); sp != nil {
+					if g := sp.Var(name); g != nil {
+						ptr := vc.globalRef(g)
+						return SV{t: vc.loadLoc(env.cur, vc.locOf(ptr)), typ: derefType(g.Type())}
+					}
+				}
+			}
 		}
 	}
 	if f, ok := vc.eng.preludeFuncs[name]; ok && len(f.Args) == 0 {
